@@ -22,9 +22,9 @@ theorem tie_consts :
 /-- Tie to the source: `0 < ordinal` / `0x8000` / `+= 1` of `Builder::add_item`, the range bound,
 the 256 and the `+ 1` of `Snap::recycle`, the four words of a UUID. -/
 theorem tie_literals :
-    Tw.Gen.Snap.lits_add_item = [0, 32768, 1] ∧ Tw.Gen.Snap.lits_recycle = [0, 32768, 256, 1] ∧
-    Tw.Gen.Snap.lits_raw_type_id = [0] ∧ Tw.Gen.Snap.lits_uuid_to_item_data = [0, 4, 4, 4] ∧
-    Tw.Gen.Snap.lits_item_data_to_uuid = [4, 4, 4, 0, 16, 4] := by decide
+    Tw.Gen.Snap.lits_add_item = [16384, 32768] ∧ Tw.Gen.Snap.lits_recycle = [256, 16384, 32768] ∧
+    Tw.Gen.Snap.lits_raw_type_id = [16384] ∧ Tw.Gen.Snap.lits_uuid_to_item_data = [4] ∧
+    Tw.Gen.Snap.lits_item_data_to_uuid = [4, 16] := by decide
 
 /-- The builder states reachable through the public API: `Builder::new()`, `add_item` with a
 `u16` id, `i32` data and an ordinal or UUID type (whatever it returns, unless it panics), and
